@@ -98,12 +98,15 @@ def _single(kind):
   mb = skeletons.ModelBuilder()
   g = mb.subgraph()
   if kind in ('CONV_2D', 'DEPTHWISE_CONV_2D', 'TRANSPOSE_CONV',
-              'AVERAGE_POOL_2D'):
+              'AVERAGE_POOL_2D', 'AVERAGE_POOL_2D_RELU',
+              'AVERAGE_POOL_2D_RELU6'):
     x = g.input('x', (1, 2, 2, 2))
     y = {'CONV_2D': lambda: g.conv2d(x, 'y'),
          'DEPTHWISE_CONV_2D': lambda: g.dwconv2d(x, 'y'),
          'TRANSPOSE_CONV': lambda: g.transpose_conv(x, 'y'),
-         'AVERAGE_POOL_2D': lambda: g.avgpool(x, 'y')}[kind]()
+         'AVERAGE_POOL_2D': lambda: g.avgpool(x, 'y'),
+         'AVERAGE_POOL_2D_RELU': lambda: g.avgpool(x, 'y', fused=1),
+         'AVERAGE_POOL_2D_RELU6': lambda: g.avgpool(x, 'y', fused=3)}[kind]()
     g.output(y)
   elif kind == 'EMBEDDING_LOOKUP':
     ids = g.input('ids', (2,), np.int32)
@@ -120,6 +123,11 @@ def _single(kind):
     x = g.input('x', (1, 2))
     if kind == 'FC':
       y = g.fc(x, 'y')
+    elif kind == 'FC_RELU':
+      y = g.fc(x, 'y', fused=1)
+    elif kind == 'ADD_RELU6':
+      z = g.input('z', (1, 2))
+      y = g.binary('ADD', x, z, 'y', fused=3)
     elif kind == 'FC_NOBIAS':
       y = g.fc(x, 'y', bias=False)
     elif kind in ('ADD', 'SUB', 'MUL'):
@@ -163,7 +171,8 @@ SINGLE_KINDS = ['FC', 'FC_NOBIAS', 'CONV_2D', 'DEPTHWISE_CONV_2D',
                 'MUL_CONST', 'MUL_SAME', 'ADD_SAME', 'RESHAPE', 'TRANSPOSE',
                 'MEAN', 'STRIDED_SLICE', 'AVERAGE_POOL_2D', 'SOFTMAX',
                 'LOGISTIC', 'TANH', 'GELU', 'RSQRT', 'CONCATENATION',
-                'CONCAT_SAME', 'SPLIT', 'RELU', 'CAST']
+                'CONCAT_SAME', 'SPLIT', 'RELU', 'CAST', 'AVERAGE_POOL_2D_RELU',
+                'AVERAGE_POOL_2D_RELU6', 'FC_RELU', 'ADD_RELU6']
 
 
 def _topologies():
